@@ -219,6 +219,36 @@ func (s *vScenario) exec(st vStep) (res, msg string, fatal error) {
 		return guard(func() error { return mgr.UpdateTag(st.Name, UpdateTagOperationSetConverter(append([]string{}, st.Convs...))) })
 	case "ConvReset":
 		return guard(func() error { return mgr.ResetConverter(st.Convs[0]) })
+	case "ConvRemove", "ConvAdd":
+		// the converter directory changes; the manager notices through fsnotify (additions after a 500 ms debounce)
+		path := filepath.Join(s.dirs["converter"], st.Convs[0]+".py")
+		_, statErr := os.Stat(path)
+		if st.A == "ConvRemove" {
+			if statErr != nil {
+				return "skip", "no such converter file", nil
+			}
+			if err := os.Remove(path); err != nil {
+				return "", "", err
+			}
+		} else {
+			if statErr == nil {
+				return "skip", "converter file exists", nil
+			}
+			if err := os.WriteFile(path, []byte(vConverterScript), 0o775); err != nil {
+				return "", "", err
+			}
+		}
+		want := st.A == "ConvAdd"
+		for d := time.Now().Add(5 * time.Second); time.Now().Before(d); time.Sleep(10 * time.Millisecond) {
+			have := false
+			for _, cs := range mgr.ListConverters() {
+				have = have || cs.Name == st.Convs[0]
+			}
+			if have == want {
+				return "ok", "", s.sync()
+			}
+		}
+		return "", "", fmt.Errorf("%s %s: the manager did not notice the change of the converter directory", st.A, st.Convs[0])
 	case "AddHook":
 		return guard(func() error { return mgr.AddPcapProcessorWebhook(st.What) })
 	case "DelHook":
